@@ -473,3 +473,88 @@ Proof.
     { destruct p as [|x q]; [injection Hw as <-; exact Hpm|]. destruct (plain_tree_walk m Hpm (x :: q) kt ltac:(discriminate) Hw) as (_ & _ & _ & D). exact D. }
     apply plain_tree_inv. exact Hpk.
 Qed.
+
+(* ---------- append-over of an inner node ALONE (tree = False): replaced in its parent, all its file children kept, none added *)
+Lemma set_get_same {A} (l : list (string * A)) k v : get l k = Some v -> set l k v = l.
+Proof.
+  induction l as [|[k' v'] r IH]; intros H; [discriminate|]. cbn [get set] in *.
+  destruct (String.eqb k k') eqn:E; [injection H as <-; apply String.eqb_eq in E; subst; reflexivity|]. rewrite (IH H). reflexivity.
+Qed.
+
+Lemma overwrite_in_parent_shallow data g : overwrite_in_parent data g = overwrite_in_parent (with_kids data []) g.
+Proof. destruct data; reflexivity. Qed.
+
+Theorem inner_node_appendover_alone_closed_form c0 m root q x pk km data md :
+  In md appendovermode ->
+  rcls m = CRoot -> rname root = rname m -> rmds root = [] -> ok_tree m ->
+  rwalk m q = Some pk -> rwalk m (q ++ [x]) = Some km ->
+  rwalk root (q ++ [x]) = Some data -> rname data = x ->
+  compat_ao (RN CNode "" 0%Z 0 [] [with_kids data []]) (shallow_links pk) (rkids pk) ->
+  append_existing root (q ++ [x]) (WA md (Some false) None) md (whole_file c0 m)
+  = Ok (whole_file c0 (rsubst q m (with_kids pk (aom (RN CNode "" 0%Z 0 [] [with_kids data []]) (rkids pk))))).
+Proof.
+  intros Hmd Hc Hname Hmds Hok Hwp Hwm Hwr Hdn Hcompat.
+  assert (mem md appendovermode = true) as Hao by (destruct Hmd as [<-|[<-|[<-|[<-|[<-|[]]]]]]; reflexivity).
+  set (d0 := with_kids data []). assert (rname d0 = x) as Hd0 by (unfold d0; destruct data; exact Hdn).
+  set (pk' := with_kids pk (aom (RN CNode "" 0%Z 0 [] [d0]) (rkids pk))).
+  assert (rname pk' = rname pk) as Hn' by (destruct pk; reflexivity).
+  pose proof (ao_union (RN CNode "" 0%Z 0 [] [d0]) (node_tags pk) (shallow_links pk) (rkids pk) Hcompat) as Hstep.
+  rewrite <- (enc_eq pk) in Hstep. cbn [append_branch rkids fold_left bind] in Hstep.
+  assert (km_in : rget (rkids pk) x = Some km).
+  { clear -Hwp Hwm. revert m Hwp Hwm. induction q as [|y q' IH]; intros m Hwp Hwm.
+    - injection Hwp as <-. cbn [app rwalk] in Hwm. destruct (rget (rkids m) x); [injection Hwm as <-; reflexivity|discriminate].
+    - cbn [app rwalk] in *. destruct (rget (rkids m) y) as [kid|]; [|discriminate]. apply (IH kid Hwp Hwm). }
+  assert (mem (rname d0) (map fst (filter (fun kv => is_group (snd kv) && has_gtype (snd kv)) (olinks (enc pk)))) = true) as Hmem.
+  { rewrite Hd0. apply mem_In. apply in_map_iff. exists (x, enc km). split; [reflexivity|]. apply filter_In. split; [|apply enc_has_gtype].
+    rewrite enc_links'. apply in_or_app. right. apply get_In. apply get_enc_kids_some. exact km_in. }
+  rewrite Hmem in Hstep.
+  assert (G (node_tags pk) (shallow_links pk ++ enc_kids (aom (RN CNode "" 0%Z 0 [] [d0]) (rkids pk))) = enc pk') as Epk'.
+  { rewrite (enc_eq pk'). unfold pk'. destruct pk; reflexivity. }
+  rewrite Epk' in Hstep.
+  (* the merge below a childless node is the identity: the replace step alone already gives enc pk' *)
+  assert (overwrite_in_parent data (enc pk) = Ok (enc pk')) as Hrep.
+  { rewrite overwrite_in_parent_shallow. fold d0.
+    destruct (overwrite_in_parent d0 (enc pk)) as [g1|e] eqn:E1; [|discriminate]. cbn [bind] in Hstep.
+    assert (append_branch true d0 = fun g => Ok g) as Hid by (unfold d0; destruct data; reflexivity).
+    rewrite Hid in Hstep. unfold in_child in Hstep. cbn [update_at] in Hstep.
+    destruct g1 as [a1 l1|]; [|discriminate]. destruct (get l1 (rname d0)) as [c1|] eqn:Eg; [|discriminate].
+    cbn [update_at bind] in Hstep. rewrite (set_get_same l1 (rname d0) c1 Eg) in Hstep. exact Hstep. }
+  assert (update_at (whole_file c0 m) (rname m :: q) (overwrite_in_parent data) = Ok (whole_file c0 (rsubst q m pk'))) as Hu.
+  { unfold whole_file. cbn [update_at]. rewrite get_first.
+    rewrite (update_at_enc _ q m pk pk' Hok Hwp Hn' Hrep). cbn [bind set]. rewrite String.eqb_refl.
+    rewrite (rname_rsubst q m pk pk' Hwp Hn'). reflexivity. }
+  assert (q ++ [x] <> []) as Hne by (destruct q; discriminate).
+  rewrite (inner_save_shape c0 m root (q ++ [x]) km data md (Some false) Hc Hname Hmds Hok Hne Hwm Hwr). rewrite Hao.
+  unfold ow_and_branch, overwrite_at. rewrite Hdn.
+  destruct (init_last q x) as (Hinit & Hlast).
+  assert (last_name (rname m :: q ++ [x]) = x) as ->.
+  { unfold last_name. change (rname m :: q ++ [x]) with ((rname m :: q) ++ [x]). apply last_last. }
+  rewrite String.eqb_refl, path_eqb_refl. cbn [andb]. assert (exists y q0, q ++ [x] = y :: q0) as (y & q0 & Eq) by (destruct q; cbn; eauto). rewrite Eq at 1. rewrite Hinit.
+  rewrite Hu. reflexivity.
+Qed.
+
+Theorem wf_after_inner_node_appendover_alone c0 m root q x pk km data md :
+  In md appendovermode ->
+  rcls m = CRoot -> rname root = rname m -> rmds root = [] -> ok_tree m ->
+  rwalk m q = Some pk -> rwalk m (q ++ [x]) = Some km ->
+  rwalk root (q ++ [x]) = Some data -> rname data = x ->
+  compat_ao (RN CNode "" 0%Z 0 [] [with_kids data []]) (shallow_links pk) (rkids pk) ->
+  plain_tree m -> plain (rname data) = true -> rname data <> "metadatabundle" -> rcls data <> CRoot ->
+  exists f, append_existing root (q ++ [x]) (WA md (Some false) None) md (whole_file c0 m) = Ok f /\ wf_emd c0 f = true.
+Proof.
+  intros Hmd Hc Hname Hmds Hok Hwp Hwm Hwr Hdn Hcompat Hpm Hd1 Hd2 Hd3.
+  eexists. split; [apply (inner_node_appendover_alone_closed_form c0 m root q x pk km data md); assumption|].
+  set (pk' := with_kids pk (aom (RN CNode "" 0%Z 0 [] [with_kids data []]) (rkids pk))).
+  assert (rname pk' = rname pk /\ rcls pk' = rcls pk) as (Hn' & Hc') by (destruct pk; split; reflexivity).
+  apply wf_whole_file.
+  - rewrite (rcls_rsubst q m pk pk' Hwp Hc'). exact Hc.
+  - apply (plain_tree_rsubst q m pk pk' Hok Hpm Hwp Hn' Hc').
+    apply plain_tree_inv. assert (rkids pk' = aom (RN CNode "" 0%Z 0 [] [with_kids data []]) (rkids pk)) as -> by (destruct pk; reflexivity).
+    apply plain_aom.
+    + assert (plain_tree pk) as Hpk.
+      { destruct q as [|y q']; [injection Hwp as <-; exact Hpm|]. destruct (plain_tree_walk m Hpm (y :: q') pk ltac:(discriminate) Hwp) as (_ & _ & _ & D). exact D. }
+      apply plain_tree_inv. exact Hpk.
+    + apply plain_tree_inv. cbn [rkids]. constructor; [|constructor].
+      assert (rname (with_kids data []) = rname data /\ rcls (with_kids data []) = rcls data) as (-> & ->) by (destruct data; split; reflexivity).
+      repeat (split; [assumption|]). apply plain_tree_inv. destruct data; constructor.
+Qed.
